@@ -107,6 +107,82 @@ def gen_span_ts(rng, nmax=9):
     return ts, info
 
 
+def mirror_ts(rng, mmax=6):
+    """Structured family for the mixture-prior stage: a base msprime topology over m samples (integer breakpoints)
+    is laid down twice, side by side, with fresh internal node ids; two extra samples x, y hang off a cherry P next
+    to it in one half, while in the other half y is missing (isolated) and x joins the root directly.  Every internal
+    node of the base therefore has a mirror image with the *same* (descendant tips, span) records under a *different*
+    number of samples in the tree."""
+    import msprime
+    import tskit
+    m = int(rng.integers(3, mmax + 1))
+    H = float(rng.choice([20, 50, 100, 400]))
+    trees = int(rng.choice([3, 5, 8, 12]))
+    hsum = sum(1.0 / i for i in range(1, m))
+    base = msprime.sim_ancestry(samples=[msprime.SampleSet(m, ploidy=1)], population_size=100, sequence_length=H,
+                                recombination_rate=(trees - 1) / (4 * 100 * H * max(hsum, 1.0)),
+                                random_seed=int(rng.integers(1, 2**31 - 1)), discrete_genome=True)
+    if rng.random() < 0.3:
+        b2, ok = gen.polytomise(base, rng, frac=0.3)
+        if ok and b2.num_edges > 0 and b2.num_samples == m:
+            base = b2
+    tmax = float(base.nodes_time.max())
+    tables = tskit.TableCollection(sequence_length=2 * H)
+    for _ in range(m + 2):
+        tables.nodes.add_row(flags=tskit.NODE_IS_SAMPLE, time=0)
+    x, y = m, m + 1
+    P = tables.nodes.add_row(flags=0, time=tmax + 0.5)
+    R = tables.nodes.add_row(flags=0, time=tmax + 1.0)
+    full_first = bool(rng.random() < 0.5)          # which half has all samples
+    bsamples = [int(s) for s in base.samples()]
+    smap = {s: i for i, s in enumerate(bsamples)}
+    for half in (0, 1):
+        off = half * H
+        ids = dict(smap)
+        for u in range(base.num_nodes):
+            if u not in ids:
+                ids[u] = tables.nodes.add_row(flags=0, time=float(base.nodes_time[u]))
+        for e in base.edges():
+            tables.edges.add_row(e.left + off, e.right + off, ids[e.parent], ids[e.child])
+        for tree in base.trees():
+            tables.edges.add_row(tree.interval[0] + off, tree.interval[1] + off, R, ids[tree.root])
+        if (half == 0) == full_first:
+            tables.edges.add_row(off, off + H, P, x)
+            tables.edges.add_row(off, off + H, P, y)
+            tables.edges.add_row(off, off + H, R, P)
+        else:
+            tables.edges.add_row(off, off + H, R, x)
+    tables.sort()
+    tables.edges.squash()
+    tables.sort()
+    ts = tables.tree_sequence().simplify()
+    info = dict(samples=ts.num_samples, trees=ts.num_trees, nodes=ts.num_nodes, fired=["mirror"])
+    return ts, info
+
+
+def colliding_pairs(sp, ts):
+    """Pairs of non-sample nodes, each confined to trees of one sample count (different for the two), each with 2..5
+    (descendant tips, span) components, whose component records are byte-identical."""
+    samples = set(int(s) for s in ts.samples())
+    seen = {}
+    pairs = []
+    for u in range(ts.num_nodes):
+        if u in samples:
+            continue
+        spans = sp.get_spans(u)
+        if len(spans) != 1:
+            continue
+        T, arr = next(iter(spans.items()))
+        if not 2 <= arr.shape[0] <= 5:
+            continue
+        key = arr.tobytes()
+        for T2, v in seen.get(key, []):
+            if T2 != T:
+                pairs.append((v, u))
+        seen.setdefault(key, []).append((int(T), u))
+    return pairs
+
+
 # ----------------------------------------------------------------------------- records / tally (tskit side)
 
 def tree_records(ts):
@@ -274,6 +350,25 @@ def mix_block(cid, groups):
     def q(x):
         return f"{x.numerator}/{x.denominator}" if isinstance(x, Fraction) else f2q(x)
     return (cid, ["op mix"] + ["group " + " ".join(f"{q(w)} {q(m)} {q(v)}" for w, m, v in g) for g in groups])
+
+
+def params_block(cid, sp, table_of, order):
+    """`op params`: the span tables of the nodes in `order` (as get_spans returns them) + the table rows they use."""
+    lines = ["op params"]
+    used = set()
+    node_lines = []
+    for u in order:
+        toks = []
+        for T, arr in sp.get_spans(int(u)).items():
+            toks.append(f"g {int(T)}")
+            for k, w in zip(arr["descendant_tips"], arr["span"]):
+                toks.append(f"{int(k)} {f2q(w)}")
+                used.add((int(T), int(k)))
+        node_lines.append("node " + " ".join(toks))
+    for T, k in sorted(used):
+        m, v = table_of(T, k)
+        lines.append(f"tab {T} {k} {f2q(m)} {f2q(v)}")
+    return (cid, lines + node_lines)
 
 
 def run_driver(blocks):
